@@ -33,7 +33,7 @@ def _log(opt_log, names):
     return out
 
 
-def one_run(tbl, sched, J=1, seed=0, continue_after_read=False, minimize=False):
+def one_run(tbl, sched, J=1, seed=0, continue_after_read=False, minimize=False, shared_book=False):
     """tbl[k][c][j] (j = 0..T-1), sched = [(type, dur, thin), ...]
     continue_after_read: the results object is obtained and its posterior read before the last epoch is appended and
     sampled; everything is then read from that *same* object.  minimize: minimize_transition_infos."""
@@ -46,7 +46,9 @@ def one_run(tbl, sched, J=1, seed=0, continue_after_read=False, minimize=False):
     assert T == sum(d for _, d, _ in sched)
     names = [f"kernel_{k:02d}" for k in range(K)]
     hdr = {"K": K, "C": C, "sched": [{"type": t, "dur": d, "thin": th} for t, d, th in sched],
-           "continue_after_read": continue_after_read, "minimize": minimize, "tbl": tbl, "names": names, "books": [book_of(k + 1) for k in range(K)], "J": J}
+           "continue_after_read": continue_after_read, "minimize": minimize, "tbl": tbl, "names": names,
+           # shared_book: all kernels are of one class, i.e. they share codes *and* messages
+           "books": [book_of(1 if shared_book else k + 1) for k in range(K)], "J": J, "shared_book": shared_book}
     ev = {"ev": "results", "crash": "", "log_all": [], "log_post_none": True, "log_post": [],
           "has_summary": False, "summary": [], "df_per_chain": [], "df_merged": [], "sample_info": {},
           "stored_post": -1, "dig_before": {}, "dig_pickle": {}, "dig_post": {}, "dig_arviz_post": {},
@@ -59,7 +61,8 @@ def one_run(tbl, sched, J=1, seed=0, continue_after_read=False, minimize=False):
         cfgs = [{"type": 0, "dur": 1, "thin": 1}] + hdr["sched"]
         late = continue_after_read and len(sched) >= 2
         eng, kernels, keys = E.build_engine(K, set(), C, seed, J, cfgs[:-1] if late else cfgs, error_tables=tables,
-                                            cap=T + 4 * len(sched) + 8, error_books=True, minimize_infos=minimize)
+                                            cap=T + 4 * len(sched) + 8, error_books="shared" if shared_book else True,
+                                            minimize_infos=minimize)
         eng.sample_all_epochs()
         res = eng.get_results()
         if late:
@@ -164,6 +167,8 @@ def jobs(rng, quick=True):
                                 continue_after_read=(pat in ("each_epoch", "random", "posterior_only")
                                                      and sum(1 for t, _, _ in sched if t == 4) >= 2),
                                 minimize=(pat == "random")))
+                if pat in ("each_epoch", "single_chain") and K >= 2:
+                    out.append(dict(out[-1], shared_book=True, minimize=False, continue_after_read=False))
                 n += 1
     return out
 
